@@ -336,7 +336,7 @@ theorem error_keeps_prefix (s : Source) (c : Cache) (req : Nat) (new old : Hdr) 
   refine ⟨?_, ?_, ?_, ?_, ?_⟩
   · unfold synchronizeListener
     simp only [hfd, hpre, syncDisconnects]
-    by_cases hd : d.common = old <;> simp [hd]
+    by_cases hd : d.common = old <;> simp [hd, discNotif, disconnectLocator]
   · intro hlt
     unfold synchronizeListener
     have : (fetchPrefix s req1 d.connected.reverse == d.connected.reverse.length) = false := by
@@ -492,7 +492,7 @@ theorem listeners_converge (s : Source) (pairs : List (Hdr × Locator)) (best : 
             intro bl p hp
             obtain ⟨common, dconn, e1, hct, e3, e4, e5, _, _⟩ := hp
             rw [e1]
-            simp only
+            simp only [List.flatMap_cons, List.flatMap_nil, List.append_nil]
             rw [applyNotifs_append, e5]
             simp only [Option.bind]
             rw [connectedFor_most hw hbt e3 hcm hct e4]
@@ -566,7 +566,7 @@ theorem listeners_converge_shape (s : Source) (pairs : List (Hdr × Locator)) (b
           obtain ⟨common, dconn, e1, hct, e3, e4, _, e6, e7⟩ := hp
           refine ⟨common, dconn, e6, e3, ?_, ?_⟩
           · rw [e1]
-            simp only
+            simp only [List.flatMap_cons, List.flatMap_nil, List.append_nil]
             rw [connectedFor_most hw hbt e3 hcm hct e4, e7]
           · have hs := anc_sorted hw _ best' rfl hbt
             rw [e3] at hs
@@ -575,6 +575,129 @@ theorem listeners_converge_shape (s : Source) (pairs : List (Hdr × Locator)) (b
 
 example : (synchronizeListeners (exSrc 6 []) [⟨3, 2, [some 2, some 1]⟩]).notifs =
     [[.disconnected 1 0] ++ [b6, b5, b4].reverse.map connNotif] := by decide
+
+/-! ## the per-listener body of the start-up loop, translated from the Rust statements -/
+
+/-- One iteration of the first loop of `synchronize_listeners`, over the TRANSLATED statement sequence
+    `initListenerStep` (Generated/ChainSync.lean: the `if`s, `continue`s, `disconnect_blocks`, the height pushed to
+    `chain_listeners_at_height`, the `most_connected_blocks` update — regenerated from init.rs on every run).
+    For a listener last synced to ANY block `b` of the tree and ANY difference (`common`, `conn`) that
+    `find_difference_from_best_block` can return (`find_difference_lca`: `common` an ancestor of `b`, `conn` the part of
+    `best`'s chain above it) — that is for EVERY position of the listener: behind the source tip (`common = b`,
+    `conn ≠ []`), exactly at it (`common = b = best`, `conn = []`), on a fork (`common ≠ b`, `conn ≠ []`) and AHEAD of the
+    source tip on the same branch (`common = best ≠ b`, `conn = []`: nothing to connect, but a disconnect is due) —
+    what the step tells the listener (its `disconnect_blocks` calls) followed by what the second loop delivers to it
+    (every block of the longest connected list `most` above the height the step RECORDED for it) takes the listener
+    from `b`'s chain exactly to `best`'s chain, the tip `synchronize_listeners` returns. -/
+theorem startup_step_brings_listener_to_tip (t : Tree) (hw : wfTree t = true) (best b common cm : Hdr)
+    (conn most0 most : List Hdr) (hb : InTree t best) (hbt : InTree t b) (hcb : common ∈ anc t b)
+    (hpath : anc t best = conn ++ anc t common)
+    (hmost : anc t best = most ++ anc t cm) (hlen : conn.length ≤ most.length) :
+    applyNotifs t (anc t b)
+      ((initListenerStep best b.hash b.height common conn most0).disc.map discNotif ++
+       (initListenerStep best b.hash b.height common conn most0).recd.flatMap (fun lh => connectedFor lh most.reverse))
+      = some (anc t best) := by
+  have hct : InTree t common := anc_inTree hw hbt hcb
+  rw [initListenerStep_eq]
+  simp only [List.flatMap_cons, List.flatMap_nil, List.append_nil]
+  rw [applyNotifs_append, connectedFor_most hw hb hpath hmost hct hlen]
+  have hconn := apply_connect_path hw hb conn.reverse common (by simp [hpath])
+  by_cases hh : common.hash = b.hash
+  · have : common = b := inTree_hash_inj hct hbt hh
+    subst this
+    simpa [applyNotifs] using hconn
+  · have hne : common ≠ b := by intro e; rw [e] at hh; exact hh rfl
+    have hbn : (common.hash != b.hash) = true := by simp [bne, hh]
+    simp only [hbn, if_true, List.map_cons, List.map_nil, discNotif, disconnectLocator, applyNotifs,
+      apply_disconnected hw hbt hcb hne, Option.bind]
+    exact hconn
+
+-- behind (b1 → b6), on a fork (b3 → b6 via b1), equal (b6), ahead of the source tip on the same branch (b6, source at b4)
+example : (initListenerStep b6 b1.hash 0 b1 [b6, b5, b4] []) = ⟨[], [0], [b6, b5, b4]⟩ ∧
+    (initListenerStep b6 b3.hash 2 b1 [b6, b5, b4] []) = ⟨[b1], [0], [b6, b5, b4]⟩ ∧
+    (initListenerStep b6 b6.hash 3 b6 [] [b6]) = ⟨[], [3], [b6]⟩ ∧
+    (initListenerStep b4 b6.hash 3 b4 [] []) = ⟨[b4], [1], []⟩ := by decide
+
+/-- The listener AHEAD of the source (the source's best block `best` is a strict ancestor of the listener's block
+    `b`: the source is still catching up, was rolled back, or is another node): `find_difference_from_best_block`
+    returns `(best, [])` — nothing to connect — and the translated step must still disconnect the listener down to
+    `best` and record `best`'s height: the listener is told exactly `blocks_disconnected(best)` and ends on
+    `best`'s chain. (An early exit on `connected_blocks.is_empty()` that skips the disconnect makes this false.) -/
+theorem startup_listener_ahead_is_disconnected (t : Tree) (hw : wfTree t = true) (best b : Hdr) (most0 : List Hdr)
+    (hbt : InTree t b) (hanc : best ∈ anc t b) (hne : best ≠ b) :
+    (initListenerStep best b.hash b.height best [] most0).disc.map discNotif = [Notif.disconnected best.hash best.height] ∧
+    (initListenerStep best b.hash b.height best [] most0).recd = [best.height] ∧
+    applyNotifs t (anc t b) ((initListenerStep best b.hash b.height best [] most0).disc.map discNotif) = some (anc t best) := by
+  have hct : InTree t best := anc_inTree hw hbt hanc
+  have hh : ¬ best.hash = b.hash := fun e => hne (inTree_hash_inj hct hbt e)
+  have hbn : (best.hash != b.hash) = true := by simp [bne, hh]
+  rw [initListenerStep_eq]
+  simp only [hbn, if_true, List.map_cons, List.map_nil, discNotif, disconnectLocator, applyNotifs, apply_disconnected hw hbt hanc hne]
+  exact ⟨trivial, trivial, trivial⟩
+
+-- the whole function on that shape: listeners at b6 (ahead) and b1 (behind), source tip b4
+example : ((synchronizeListeners (exSrc 4 []) [⟨6, 3, [some 5, some 4]⟩, ⟨1, 0, []⟩]).notifs =
+    [[.disconnected 4 1], [.connected 4 1]]) ∧
+    ((synchronizeListeners (exSrc 4 []) [⟨6, 3, [some 5, some 4]⟩, ⟨1, 0, []⟩]).result.toOption.map (·.1.hash) = some 4) := by decide
+
+/-! ## a FAILED start-up synchronisation never leaves a listener on a chain that skips or repeats a block -/
+
+/-- `synchronize_listeners` under ANY outcome — `Ok`, or `Err` at any request: the best-block look-up, a locator that
+    cannot be resolved, a header walk that fails for the third listener after the first two were already disconnected,
+    a block fetch that fails in the fourth batch after three batches were delivered —: what EVERY listener has been
+    told, folded over its own old chain, is a valid sequence (one rewind to an ancestor, then blocks each building on
+    the previous one, one height up) ending on the chain of some block `x` of the tree. (`listeners_converge` adds, for
+    `Ok`, that `x` is the returned tip for all of them.) -/
+theorem startup_any_outcome_single_chain (s : Source) (pairs : List (Hdr × Locator))
+    (hw : wfTree s.tree = true) (hl : ∀ p ∈ pairs, LocatorOk s.tree p.2 p.1) :
+    Forall2 (fun p ns => ∃ x, applyNotifs s.tree (anc s.tree p.1) ns = some (anc s.tree x)) pairs
+      (synchronizeListeners s (pairs.map (·.2))).notifs := by
+  have hempty : Forall2 (fun (p : Hdr × Locator) ns => ∃ x, applyNotifs s.tree (anc s.tree p.1) ns = some (anc s.tree x)) pairs
+      ((pairs.map (·.2)).map (fun _ => ([] : List Notif))) :=
+    forall2_map_const _ _ _ (by simp) (fun a _ => ⟨a.1, by simp [applyNotifs]⟩)
+  unfold synchronizeListeners
+  cases hbb : s.getBestBlock 0 with
+  | error e => dsimp only; exact hempty
+  | ok bh =>
+    dsimp only
+    cases hgh : s.getHeader 1 bh with
+    | error e => dsimp only; exact hempty
+    | ok best' =>
+      have hhd := getHeader_ok hgh
+      have hbt : InTree s.tree best' := inTree_of_hdrOf hw hhd
+      dsimp only
+      have hv := phase1_notifs_valid hw hbt pairs [] 2 [] hl (cacheOk_nil _)
+      by_cases hok1 : (phase1 s best' (pairs.map (·.2)) [] 2 []).ok = true
+      · obtain ⟨q1, q2, q3⟩ := phase1_spec hw hbt pairs [] 2 [] hl (cacheOk_nil _) ⟨best', by simp⟩ hok1
+        obtain ⟨cm, hcm⟩ := q3
+        obtain ⟨rest, hrest⟩ := phase2_prefix s MAX_BLOCKS_AT_ONCE (phase1 s best' (pairs.map (·.2)) [] 2 []).most.reverse.length
+          (phase1 s best' (pairs.map (·.2)) [] 2 []).most.reverse
+          (phase1 s best' (pairs.map (·.2)) [] 2 []).cache (phase1 s best' (pairs.map (·.2)) [] 2 []).req
+        simp only [hok1, Bool.not_true, Bool.false_eq_true, if_false]
+        generalize phase2 s MAX_BLOCKS_AT_ONCE (phase1 s best' (pairs.map (·.2)) [] 2 []).most.reverse.length
+          (phase1 s best' (pairs.map (·.2)) [] 2 []).most.reverse
+          (phase1 s best' (pairs.map (·.2)) [] 2 []).cache (phase1 s best' (pairs.map (·.2)) [] 2 []).req = p2 at *
+        rcases p2 with ⟨ok, c, r, delivered⟩
+        dsimp only at hrest
+        have key : Forall2 (fun (p : Hdr × Locator) ns => ∃ x, applyNotifs s.tree (anc s.tree p.1) ns = some (anc s.tree x)) pairs
+            ((phase1 s best' (pairs.map (·.2)) [] 2 []).per.map
+              (fun p => p.2 ++ p.1.flatMap (fun lh => connectedFor lh delivered))) := by
+          apply forall2_map_right _ q1
+          intro bl p hp
+          obtain ⟨common, dconn, e1, hct, e3, e4, e5, _, _⟩ := hp
+          rw [e1]
+          simp only [List.flatMap_cons, List.flatMap_nil, List.append_nil]
+          rw [applyNotifs_append, e5]
+          simp only [Option.bind]
+          exact connectedFor_prefix_valid hw hbt e3 hcm hct e4 hrest
+        cases ok <;> exact key
+      · simp only [hok1, Bool.not_false, if_true]
+        refine forall2_map_right (f := fun p => p.2) ?_ hv
+        intro a b h; exact h
+
+-- the second listener's locator look-up fails (request 8) after the first listener was already disconnected
+example : ((synchronizeListeners (exSrc 6 [8]) [⟨3, 2, []⟩, ⟨1, 0, []⟩]).result.toOption.isNone = true) ∧
+    (synchronizeListeners (exSrc 6 [8]) [⟨3, 2, []⟩, ⟨1, 0, []⟩]).notifs = [[.disconnected 1 0], []] := by decide
 
 /-! ## headers that fail proof-of-work or do not connect are refused — for EVERY source behaviour -/
 
@@ -847,7 +970,7 @@ theorem only_validated_blocks_reach_the_listener (a : Adv) (t : Tree) (cl : Clie
       · rename_i d req1 _
         simp only at hsync
         rcases List.mem_append.mp hsync with h1 | h2
-        · split at h1 <;> simp at h1
+        · split at h1 <;> simp [discNotif] at h1
         · exact connectBlocks_connected _ _ _ _ _ _ _ h2
   obtain ⟨k, b, hbh, _, hg⟩ := key
   subst hbh
